@@ -21,7 +21,7 @@ def parse(path):
 def main():
     head = subprocess.run(["git", "-C", ROOT, "rev-parse", "--short", "HEAD"], capture_output=True, text=True).stdout.strip()
     rows = []
-    for d in sorted(glob.glob(os.path.join(ROOT, "seeded", "C*-*"))):
+    for d in sorted(glob.glob(os.path.join(ROOT, "seeded", "C*-?"))):
         sid = os.path.basename(d)
         mp = os.path.join(d, "meta.json")
         if not os.path.exists(mp):
